@@ -46,6 +46,60 @@ prepare() {
 
 needs_race() { [ "$1" = "C12" ]; }
 
+CLAIMED="C01 C02 C03 C05 C08 C09 C11 C12 C14 C15 C16 C17 C18 C19"
+
+# The instrumented copy must pass the repository's own tests, with the hooks nil and
+# with a shuffling map-order hook: if it ever disagrees with the original on the
+# repo's own tests, the machinery is wrong, not the repo.
+selftest_rewriter() {
+  local S="$1" T="$1/rewriter"
+  mkdir -p "$T"
+  (cd "$REPO" && tar cf - --exclude=.git .) | (cd "$T" && tar xf -)
+  sed -i 's/^go 1\.[0-9]*$/go 1.18/' "$T/go.mod"
+  cp "$VERIF/sim/hooks/zz_verif_sim.go.tmpl" "$T/zz_verif_sim.go"
+  "$VERIF/.bin/instrument" -dir "$T" > "$T/.instrument.log" 2>&1 || { cat "$T/.instrument.log" >&2; echo "SELFTEST-FAILED rewriter: instrumentation" >&2; return 2; }
+  cat > "$T/zz_verif_hook_test.go" <<'EOT'
+package jsonapi
+
+import (
+	"math/rand"
+	"os"
+)
+
+func init() {
+	if os.Getenv("VERIF_SHUFFLE") != "" {
+		r := rand.New(rand.NewSource(7))
+		SimMapOrder = func(site, n int) []int { return r.Perm(n) }
+	}
+}
+EOT
+  (cd "$T" && go test -vet=off -count=1 ./... > "$T/.nil.log" 2>&1) || { tail -30 "$T/.nil.log" >&2; echo "SELFTEST-FAILED rewriter: the instrumented copy fails the repository's tests with hooks nil" >&2; return 2; }
+  (cd "$T" && VERIF_SHUFFLE=1 go test -vet=off -count=1 . > "$T/.shuffle.log" 2>&1) || { tail -30 "$T/.shuffle.log" >&2; echo "SELFTEST-FAILED rewriter: the instrumented copy fails the repository's tests under a shuffling map order" >&2; return 2; }
+  rm -rf "$T"
+  echo "selftest rewriter ok (repo tests pass on the instrumented copy: hooks nil, shuffled map order)"
+}
+
+# Determinism: N runs of every property, twice each, in separate processes at
+# GOMAXPROCS 1, 4 and 16; the per-run event-log hashes must be identical.
+selftest_determinism() {
+  local S="$1" N="$2" prop bin ref out g k
+  for prop in $CLAIMED; do
+    bin="$S/simrun"; needs_race "$prop" && bin="$S/simrun-race"
+    ref=""
+    for g in 1 4 16; do
+      for k in 1 2; do
+        out="$(GOMAXPROCS=$g "$bin" -property "$prop" -hashes "0:$N" -known "$VERIF/known_findings.json" 2>&1)" || { echo "$out" | tail -5 >&2; echo "SELFTEST-FAILED determinism: $prop died" >&2; return 2; }
+        if [ -z "$ref" ]; then ref="$out"; elif [ "$out" != "$ref" ]; then
+          echo "SELFTEST-FAILED determinism: $prop differs at GOMAXPROCS=$g run $k" >&2
+          diff <(echo "$ref") <(echo "$out") | head -10 >&2
+          return 2
+        fi
+      done
+    done
+  done
+  echo "selftest determinism ok ($N runs x 6 processes x 14 properties, GOMAXPROCS 1/4/16)"
+}
+
 cmd="${1:-}"
 case "$cmd" in
   setup)
@@ -53,7 +107,22 @@ case "$cmd" in
     S="$(mktemp -d "${TMPDIR:-/tmp}/verif-setup-XXXXXX")"
     trap 'rm -rf "$S"' EXIT
     prepare "$S" || exit 2
-    echo "setup ok: $(cat "$S/instrument.log")"
+    echo "setup: $(cat "$S/instrument.log")"
+    # warm the -race build cache (std + engines) so that the C12 check builds quickly
+    (cd "$S/sim" && go build -race -o "$S/simrun-race" ./cmd/simrun) > "$S/build-race.log" 2>&1 || { cat "$S/build-race.log" >&2; die2 "race build failed"; }
+    selftest_rewriter "$S" || exit 2
+    selftest_determinism "$S" 12 || exit 2
+    echo "setup ok"
+    ;;
+  selftest)
+    build_instrumenter
+    S="$(mktemp -d "${TMPDIR:-/tmp}/verif-selftest-XXXXXX")"
+    trap 'rm -rf "$S"' EXIT
+    prepare "$S" || exit 2
+    (cd "$S/sim" && go build -race -o "$S/simrun-race" ./cmd/simrun) > "$S/build-race.log" 2>&1 || { cat "$S/build-race.log" >&2; die2 "race build failed"; }
+    selftest_rewriter "$S" || exit 2
+    selftest_determinism "$S" "${2:-40}" || exit 2
+    echo "selftest ok"
     ;;
   replay)
     file="${2:?replay file}"
